@@ -215,7 +215,7 @@ def running_name(case):
 
 def evaluate(ctx, cases, res, impl=None):
     impl = impl or ctx.build_impl()
-    drv = ctx.build_driver('iv')
+    drv = iv_common.build_iv_driver(ctx)
     for s in ('tools/shims/stat (BSD stat -f %Sm -t)', 'tools/shims/find (-delete ignores ENOTEMPTY)', 'tools/shims/chflags',
               'tools/shims/logname', 'tools/shims/date'):
         if s not in ctx.shims_used:
